@@ -216,6 +216,19 @@ def check(ctx) -> None:
             ref = sig
         ok = over_ops and sig == ref and len(call.args) == 2 and not call.keywords
         ctx.check("C28.count", node, ok, f"{qn} does not enumerate op.mutate(target_ast, module) over all of self.operators like its siblings: reported count and yielded mutants disagree", what=f"{qn}: enumerates {norm(call)} over self.operators")
+    # a mutator that enumerates differently must count differently: mutate() and mutation_count() come from the same class
+    # (or the count is the base class's, which enumerates self.mutate itself)
+    mm = repo.module(MUT)
+    for cname, cdef in mm.classes.items():
+        own = {f.name: f for f in cdef.body if isinstance(f, ast.FunctionDef)}
+        if "mutate" not in own or any(norm(d).endswith("abstractmethod") for d in own["mutate"].decorator_list):
+            continue
+        resolved = repo.resolve_method(MUT, cname, "mutation_count")
+        if resolved is None:
+            raise AnalysisError(f"{cname}: mutation_count cannot be resolved")
+        mc_fn = resolved[-1] if isinstance(resolved, tuple) else resolved
+        generic = any(isinstance(n, ast.Call) and norm(n.func) == "self.mutate" for n in own_nodes(mc_fn))
+        ctx.check("C28.count", cdef, "mutation_count" in own or generic, f"{cname} enumerates its mutants with its own mutate() but reports the count of an inherited mutation_count() that does not go through it: the reported number of mutants is not the number the enumeration yields", what=f"{cname}: mutate and mutation_count agree", stmt=f"[{cname}] count follows mutate")
     # the count must not be filtered or capped
     mc = repo.func(MUT, "FirstOrderMutator.mutation_count")
     rets = [n for n in own_nodes(mc) if isinstance(n, ast.Return)]
